@@ -93,6 +93,8 @@ _MIN_A = np.array([[2.0, -1.0, -1.0], [-1.0, 2.0, 0.0], [-1.0, 0.0, 2.0]])
 def _tiny_integer_systems(tier):
     """all systems with diag 2, off-diagonals in {-1,0,1}, integer right-hand sides (includes exact ties)"""
     yield {"A": _MIN_A.copy(), "b": np.array([0.0, -1.0, 1.0])}          # smallest system found for the warm start
+    # exact tie (D_p = 0 on the guessed positive set): the warm start loops until its iteration limit
+    yield {"A": np.array([[2.0, -1.0, 0.0], [-1.0, 2.0, 1.0], [0.0, 1.0, 2.0]]), "b": np.array([1.0, -2.0, 0.0])}
     yield {"A": np.array([[2.0]]), "b": np.array([1.0])}
     yield {"A": np.array([[2.0]]), "b": np.array([-1.0])}
     for a in (-1.0, 0.0, 1.0):
@@ -342,6 +344,14 @@ def _gen_inversion_warm(rng, tier):
 def _gen_inversion_source_zero(rng, tier):
     """positive-only solver, cold start, force_edge_pixels_to_zeros + force_edge_image_pixels_to_zeros with 1-2 listed
     image pixels; first one mapper, then two"""
+    # smallest ragged case: 4 image pixels, two 4x4 mock mappers (interior cells 5,6,9,10); image pixel 0 feeds 1 source
+    # pixel of the first mapper and 2 of the second
+    mask = np.ones((4, 4), dtype=bool); mask[1:3, 1:3] = False
+    m1 = np.zeros((4, 16)); m1[0, 5] = 1.0; m1[1, 6] = 1.0; m1[2, 9] = 1.0; m1[3, 10] = 1.0
+    m2 = np.zeros((4, 16)); m2[0, 5] = 0.5; m2[0, 6] = 0.5; m2[1, 9] = 1.0; m2[2, 10] = 1.0; m2[3, 9] = 0.5; m2[3, 10] = 0.5
+    yield {"mask": mask, "data": np.ones((4, 4)), "noise": np.ones((4, 4)), "psf": _PSFS[2], "mesh_shapes": [(4, 4), (4, 4)],
+           "mapping_matrices": [m1, m2], "func_matrix": None, "coefficients": [1.0, 1.0], "func_first": False,
+           "positive_only": True, "p_initial": False, "force_edge": True, "source_zero": [0]}
     for case in _gen_inversion_mock(rng, tier):
         if not (case["positive_only"] and case["force_edge"] and not case["p_initial"]):
             continue
@@ -510,17 +520,8 @@ def _gen_mapped(rng, tier):
         k += 1
 
 
-@bounded("C05", "mapped-reconstructed-data-dict", gen=_gen_mapped, nontrivial=lambda **kw: len(kw["sources"]) > 1 or kw["func_matrix"] is not None)
-def mapped_reconstructed_data_dict(mask, data, noise, psf, sub, sources, mesh_shapes, coefficients, func_matrix,
-                                   use_w_tilde, positive_only, force_edge):
-    """C05: 'The model data returned for each linear object equals its blurred mapping matrix times its slice of s, and
-    these sum to the total mapped reconstructed data' -- aa.Inversion in the mapping AND w-tilde formalisms on 1-2 real
-    rectangular mappers (3x3..4x5 meshes, per-pixel sub sizes 1..3, distorted+jittered source grids) plus an optional
-    linear-function object; masks <= 6x6, 3x3 PSFs; 250 (4000) datasets x 2 formalisms.  'Blurred mapping matrix' = the
-    object's entry of `operated_mapping_matrix_list` (its correctness is C03); cold-start solver so that this check is
-    independent of the warm-start finding.  Tolerance 1e-9 * sum_j |B_ij||s_j| (plain dot products)."""
-    import autoarray as aa
-    from autoarray import exc
+def _real_inversion(aa, mask, data, noise, psf, sub, sources, mesh_shapes, coefficients, func_matrix, use_w_tilde,
+                    positive_only, force_edge):
     mk, im = _imaging(aa, mask, data, noise, psf)
     over = aa.OverSamplerUniform(mask=mk, sub_size=aa.Array2D(values=sub.copy(), mask=mk))
     objs = []
@@ -534,7 +535,66 @@ def mapped_reconstructed_data_dict(mask, data, noise, psf, sub, sources, mesh_sh
     settings = aa.SettingsInversion(use_w_tilde=use_w_tilde, use_positive_only_solver=positive_only,
                                     positive_only_uses_p_initial=False, force_edge_pixels_to_zeros=force_edge,
                                     no_regularization_add_to_curvature_diag_value=1e-3)
-    inv = aa.Inversion(dataset=im, linear_obj_list=objs, settings=settings)
+    return objs, aa.Inversion(dataset=im, linear_obj_list=objs, settings=settings)
+
+
+@bounded("C05", "inversion-real-mappers-both-formalisms", gen=_gen_mapped,
+         nontrivial=lambda **kw: kw["positive_only"] and kw["force_edge"])
+def inversion_real_mappers_both_formalisms(mask, data, noise, psf, sub, sources, mesh_shapes, coefficients, func_matrix,
+                                           use_w_tilde, positive_only, force_edge):
+    """C05: solver + forced-zero clauses ('(F+H)s = D ... or an inversion exception'; 's is non-negative, the gradient
+    vanishes on its positive entries and is non-negative on its zero entries'; 'Parameters that the settings force to
+    zero are zero and the remaining ones are optimal for the reduced system') through InversionImagingMapping AND
+    InversionImagingWTilde on real rectangular mappers (forced set = border cells of each R x C mesh, own computation);
+    cold start; geometry bound as mapped-reconstructed-data-dict; 250 (4000) datasets x 2 formalisms."""
+    import autoarray as aa
+    from autoarray import exc
+    objs, inv = _real_inversion(aa, mask, data, noise, psf, sub, sources, mesh_shapes, coefficients, func_matrix,
+                                use_w_tilde, positive_only, force_edge)
+    try:
+        A = np.array(inv.curvature_reg_matrix, dtype=float)
+        D = np.array(inv.data_vector, dtype=float)
+        s = np.array(inv.reconstruction, dtype=float)
+    except exc.InversionException:
+        return "InversionException on a regularized system" if positive_only else None
+    except Exception as e:
+        return "inversion raised %s: %s" % (type(e).__name__, str(e)[:300])
+    total = sum(o.params for o in objs)
+    if A.shape != (total, total) or s.shape != (total,):
+        return "shapes %r / %r for %d parameters" % (A.shape, s.shape, total)
+    forced, off = [], 0
+    for sh in mesh_shapes:
+        forced += [off + e for e in _mesh_edges(sh)]
+        off += sh[0] * sh[1]
+    free = np.array([i for i in range(total) if i not in forced], dtype=int)
+    if positive_only and force_edge:
+        if np.any(s[forced] != 0.0):
+            return "forced-to-zero edge parameters are not zero: %r" % (s[forced],)
+        return _kkt_message(A[np.ix_(free, free)], D[free], s[free], "reduced system") if len(free) else None
+    if positive_only:
+        return _kkt_message(A, D, s, "full system")
+    if np.max(np.abs(A @ s - D)) <= 1e-9 * _gscale(A, D, s):
+        return None
+    if force_edge and not np.any(s[forced] != 0.0) and len(free):
+        Ar, Dr, sr = A[np.ix_(free, free)], D[free], s[free]
+        if np.max(np.abs(Ar @ sr - Dr)) <= 1e-9 * _gscale(Ar, Dr, sr):
+            return None
+    return "unconstrained solver: (F+H)s != D (residual %r)" % (A @ s - D,)
+
+
+@bounded("C05", "mapped-reconstructed-data-dict", gen=_gen_mapped, nontrivial=lambda **kw: len(kw["sources"]) > 1 or kw["func_matrix"] is not None)
+def mapped_reconstructed_data_dict(mask, data, noise, psf, sub, sources, mesh_shapes, coefficients, func_matrix,
+                                   use_w_tilde, positive_only, force_edge):
+    """C05: 'The model data returned for each linear object equals its blurred mapping matrix times its slice of s, and
+    these sum to the total mapped reconstructed data' -- aa.Inversion in the mapping AND w-tilde formalisms on 1-2 real
+    rectangular mappers (3x3..4x5 meshes, per-pixel sub sizes 1..3, distorted+jittered source grids) plus an optional
+    linear-function object; masks <= 6x6, 3x3 PSFs; 250 (4000) datasets x 2 formalisms.  'Blurred mapping matrix' = the
+    object's entry of `operated_mapping_matrix_list` (its correctness is C03); cold-start solver so that this check is
+    independent of the warm-start finding.  Tolerance 1e-9 * sum_j |B_ij||s_j| (plain dot products)."""
+    import autoarray as aa
+    from autoarray import exc
+    objs, inv = _real_inversion(aa, mask, data, noise, psf, sub, sources, mesh_shapes, coefficients, func_matrix,
+                                use_w_tilde, positive_only, force_edge)
     want_cls = "InversionImagingWTilde" if use_w_tilde else "InversionImagingMapping"
     if type(inv).__name__ != want_cls:
         return "factory returned %s, expected %s" % (type(inv).__name__, want_cls)
